@@ -455,12 +455,12 @@ package gohbase
 // the probe decides whether the region is served where meta says it is: an answer of one of the three retry classes -
 // connection dead, region not served there, server asks to retry - is a failed probe, and the establisher then waits its
 // back-off before looking again (C17, C04); counted as "established", a region that never comes online is re-probed,
-// re-looked-up and re-requested in a hot loop
+// re-looked-up and re-requested in a hot loop; and (C01) the region would be bound to a server that has just refused it
 //@ func gohbase.isRegionEstablished
 //@   requires reg != nil
 //@   modifies X.attempts, X.callregion, X.ctxdone
-//@   at return 2 assert[C17,C04] !typeis(res.Error, "region.ServerError") && !typeis(res.Error, "region.NotServingRegionError") && !typeis(res.Error, "region.RetryableError")
-//@   at return 1 assert[C17,C04] res.Error != nil
+//@   at return 2 assert[C17,C04,C01] !typeis(res.Error, "region.ServerError") && !typeis(res.Error, "region.NotServingRegionError") && !typeis(res.Error, "region.RetryableError")
+//@   at return 1 assert[C17,C04,C01] res.Error != nil
 //@ func gohbase.sendBlocking
 //@   trusted "hands the call to the connection (counted as an attempt) and waits for its result or for the context"
 //@   modifies X.attempts, X.ctxdone
